@@ -182,7 +182,7 @@ def latex_typer(node, st):
 
 
 def latex_effects(node, st):
-    if isinstance(node, ast.Assign) and ast.unparse(node.targets[0]).startswith('self.packages['):
+    if isinstance(node, ast.Assign) and ast.unparse(node.targets[0]).startswith('self.packages'):
         return True
     if isinstance(node, ast.Call) and ast.unparse(node) == 'self.footnotes.update(token.footnotes)':
         return True
